@@ -1049,6 +1049,12 @@ def replay(ctx, data):
     if not inp:
         print(json.dumps(data, indent=1)[:3000])
         return 1
+    if inp.get("compute_rms") is False:
+        stats = {"runs": 0}
+        no_rms_run(ctx, stats)
+        print("compute_rms=False case; property clauses failing on the implementation:",
+              [f["what"] for f in ctx.oracle_failures], [d["what"] for d in ctx.disagreements])
+        return 1 if (ctx.oracle_failures or ctx.disagreements) else 0
     scn = {k: inp[k] for k in ("ns", "nbatch", "ncv", "ns2add", "reject", "k_filter", "wrot", "nc_out", "dtype",
                                "sat", "seed", "append")}
     scn["src"], scn["aspath"] = inp.get("src", "bin"), inp.get("aspath", True)
